@@ -28,6 +28,9 @@ META = dict(
         "induction over n"
     ),
 )
+META["explanation"] += (
+    " Added after the independent seeding rounds 2-3: " 'R4 memo caches are private to their function and keyed by its arguments. R5 bounded_sequence budget guard (shared with C06-R6).'
+)
 
 
 def const_int(e):
